@@ -14,6 +14,40 @@ ALL = [f"C{n:02d}" for n in range(1, 21)]
 
 # id -> (technique, level text, level note, design ref)
 CHECKS = {
+    "C01": ("explicit-state walk of the LT firmware machine from a boundary lattice of initial "
+            "states; real predictor compared at every visited state",
+            "The integer step-accumulator machine is stepped tick by tick from every (rate, "
+            "accel, accumulator|clear) of a boundary lattice; at each of its states the real "
+            "move_dist_lt and both deprecated aliases are called (under five ambient mpmath "
+            "precisions on a sub-lattice) and must equal the machine exactly. Moves up to "
+            "2^32-1 ticks use the closed integer sum, itself checked against the machine.",
+            "Exhaustive only over the stated lattice (all sign/parity/zero classes, powers of "
+            "two +-1, extreme magnitudes); trusts mc/firmware.py as the firmware recurrence.",
+            "DESIGN.md §3 C01"),
+    "C02": ("explicit-state walk of the T3 firmware machine incl. constructed zero-rate rows; "
+            "real predictors compared at every visited state",
+            "The third-order machine is stepped from every (rate, accel, jerk, accum|clear) of "
+            "a boundary lattice plus rows constructed to make the rate zero at ticks 1, 1-2 and "
+            "1-3 (all clear-rule levels); move_dist_t3, rate_t3 and the zero-jerk coincidence "
+            "with move_dist_lt are checked exactly at every state, long moves by closed form.",
+            "Exhaustive only over the stated lattice; trusts mc/firmware.py as the recurrence.",
+            "DESIGN.md §3 C02"),
+    "C03": ("explicit-state walk of the LM machine (LT + step counter); one run yields the first-"
+            "tick oracle for every budget; exact bisection oracle for long moves",
+            "From every initial state of the lattice the machine is stepped once; the first "
+            "tick at which the steps taken reach each budget gives (duration, position, "
+            "accumulator), compared exactly with calculate_lm, its legacy negative-step mirror, "
+            "moveTimeLM and the move_dist_lt round trip; minimality is inherent (first tick).",
+            "Exhaustive only over the stated lattice; 'steps taken' = sum of |position change| "
+            "per tick under the C01 recurrence.",
+            "DESIGN.md §3 C03"),
+    "C17": ("explicit-state walk of the T3 machine carrying the running peak; bracket invariant "
+            "evaluated at every state",
+            "At every state of the stepped T3 machine (two lattices, up to 300/2000 ticks) the "
+            "real max_rate_t3 must lie between both end rates and the true running peak and "
+            "fall short of the peak by at most |jerk|; ~6e4 states have a strictly interior peak.",
+            "Exhaustive only over the stated lattice; trusts mc/firmware.py as the recurrence.",
+            "DESIGN.md §3 C17"),
     "C07": ("deviation-bounded exhaustive exploration of fake-port answers (E1) over request "
             "histories (E2), real code vs. board-model ledger",
             "Every history of 1-2 (thorough: 3) legacy requests is executed on the real "
